@@ -192,6 +192,22 @@ theorem startExec_loop_eq (cfg : Cfg) (s : State o) (c c' : Nat)
   split at h <;> simp at h
   exact h.symm
 
+theorem startExec_loop_ne_stopped (cfg : Cfg) (s : State o) (c : Nat) (w : Stop) :
+    (startExec cfg s c).loop ≠ .stopped w := by
+  simp only [startExec]; split <;> simp
+
+theorem endExec_loop_stopped (s : State o) (c : Nat) (w : Stop) (h : (endExec s c).loop = .stopped w) :
+    s.loop = .stopped w ∨ (s.loop = .running c ∧ o.kind (s.calls c).m = .val ∧ w = .valueTaken) := by
+  simp only [endExec_loop] at h
+  split at h
+  · rename_i hr
+    split at h
+    · rename_i hk
+      simp at h
+      exact Or.inr ⟨hr, hk, h.symm⟩
+    · simp at h
+  · exact Or.inl h
+
 theorem startExec_calls_self (cfg : Cfg) (s : State o) (c : Nat) :
     (startExec cfg s c).calls c = { s.calls c with stage := .executing } := by
   simp only [startExec]; split <;> simp [setStage]
